@@ -147,3 +147,29 @@ func H_C02_ints() {
 	}
 	diffSearch(exprs[k], doc, false)
 }
+
+// H_C02_tonumber: to_number of a string is the number exactly when the text is
+// a JSON number, and null for every other text. Texts: every string of up to
+// four characters over the characters number parsers treat specially, plus
+// signed words that decimal libraries accept (Inf, NaN ...). The characters are
+// chosen by engine forks, each text then runs through the real to_number
+// (concretely, with the real decimal128 parser) and through the reference.
+var c02NumChars = []byte{'0', '1', '7', '+', '-', '.', 'e', 'E', '_', ' '}
+var c02NumWords = []string{"Inf", "inf", "Infinity", "NaN", "nan", "null", "true", "0x10", "1e400000", "1e-400000", "\"1\"", "1,0", "\u0661", "1\n", "\t1", "0.10", "00", "-0.0e-0", "1E+02", "9007199254740993", "0.1e1_0"}
+
+func H_C02_tonumber() {
+	var s string
+	if vrtChoose("kind", 2) == 0 {
+		n := vrtChoose("len", tq(4, 5)+1)
+		b := make([]byte, n)
+		for i := 0; i < n; i++ {
+			b[i] = c02NumChars[vrtChoose("ch", len(c02NumChars))]
+		}
+		s = string(b)
+	} else {
+		s = []string{"", "+", "-"}[vrtChoose("sign", 3)] + c02NumWords[vrtChoose("word", len(c02NumWords))]
+	}
+	vrtNote("template:to_number(a) on a number-like text")
+	diffSearch("to_number(a)", map[string]any{"a": s}, false)
+	diffSearch("to_number(a) == `1`", map[string]any{"a": s}, false)
+}
